@@ -191,13 +191,26 @@ SUITES["feat333"]["kinds"] = [2, 3, 4, 9]
 SUITES["feat333"]["seeds"] = "SeedsSeg333"
 SUITES["feat333"]["design_depth"] = {"quick": -1, "thorough": -1}
 
+# states in which a feature is registered and active but STALE (disable, edit, enable without recomputation):
+# outside the domain of the other properties, so only C10 is decided there (design level: Inv_C10 alone)
+import copy as _copy
+for _s, _seeds in (("featns", "SeedsFeatNs"), ("feat13", "SeedsFeatSeg")):
+    _d = _copy.deepcopy(SUITES[_s])
+    _d["cfg"]["name"] = _s + "_s"
+    _d["seeds"] = _seeds
+    _d["depth"] = {"quick": 1, "thorough": 2}
+    _d["design_depth"] = {"quick": 0, "thorough": 1}
+    _d["design_inv"] = ["Inv_C10"]
+    _d.pop("sample", None)
+    SUITES[_s + "_s"] = _d
 # construction from a copy of the reached graph (call 12: direct / from_tracks / FeatureDict, ids kept or removed)
 for _s in ("struct3", "struct3c", "struct3p", "struct4s", "struct5s", "struct4", "seg13", "seg22", "seg3d", "seg13n", "seg6s"):
     SUITES[_s]["kinds"] = list(SUITES[_s]["kinds"]) + [12]
 
 import hashlib
 
-CACHE = os.path.join(ROOT, ".cache")
+# spec-only cache (keyed by the content of every spec module and the constants); may be shared between checkouts
+CACHE = os.environ.get("VERIF_CACHE_DIR") or os.path.join(ROOT, ".cache")
 
 
 def module_closure(module):
@@ -292,7 +305,7 @@ def _design_run(suite, tier, scratch, prop, log):
     """Exhaustive model check of the DESIGN within the suite's bounds."""
     depth = suite["design_depth"][tier]
     cfgp = os.path.join(scratch, "design.cfg")
-    inv = ["Inv_Valid", "Inv_All"]
+    inv = suite.get("design_inv", ["Inv_Valid", "Inv_All"])
     open(cfgp, "w").write(tlc.cfg_text(constants=mc_constants(suite, depth, False),
                                         invariants=inv, constraint="Bound", view="View"))
     # (no -coverage: with the large per-state transition sets it exhausts the heap)
